@@ -47,9 +47,9 @@ ASSUMPTIONS = [
     "sequences have started and after any sequence has ended (find_terminal_gaps); local = best substring pair or the empty alignment",
     "which of several optimal alignments are returned, and their order, is not judged",
     "empty (zero-column) alignments of local mode are exempt from the distinctness clause, as in the statement",
+    "64-bit sequence codes cannot be produced through an alphabet (2^32 symbols); the uint64 instantiation of the fused kernels is "
+    "reached by replacing the code array of a small-alphabet sequence with its uint64 copy (private attribute _seq_code)",
     "matrix magnitudes are bounded by 1000 and lengths by 200, so the int32 tables cannot overflow by construction",
-    "align.score(..., terminal_penalty=False) on an alignment with an empty sequence raises IndexError in find_terminal_gaps; "
-    "this is counted as an observation (score_fn_declined_empty_sequence), the independent re-scorer still judges the case",
     "the Cython entry points (_fill_align_table*, follow_trace) cannot be counted with sys.monitoring; they are counted at the "
     "call site (operation histogram align_optimal[...])",
 ]
@@ -182,11 +182,15 @@ def gen_inputs(rng, ctx, stratum):
     """-> dict with alphabets, matrix, codes, penalty, mode, max_number."""
     wide = stratum == "wide_codes"
     large = stratum == "large"
+    force64 = (False, False)
     if wide:
-        choice = int(rng.integers(4))
-        k1, k2 = [(300, 300), (300, 4), (70000, 3), (5, 70000)][choice]
+        choice = int(rng.integers(5))
+        k1, k2 = [(300, 300), (300, 4), (70000, 3), (5, 70000), (6, 300)][choice]
         K1, K2 = k1, k2
         kind1 = kind2 = "int"
+        if choice == 4:
+            # no alphabet is large enough to give 64-bit codes: force the dtype of the code array
+            force64 = [(True, True), (True, False), (False, True)][int(rng.integers(3))]
     else:
         k1 = int(rng.integers(1, 7))
         k2 = int(rng.integers(1, 7)) if rng.random() < 0.7 else k1
@@ -195,7 +199,9 @@ def gen_inputs(rng, ctx, stratum):
         K2 = k2 + (int(rng.integers(0, 3)) if rng.random() < 0.3 else 0)
         kind1 = "letter" if rng.random() < 0.25 else "int"
         kind2 = "letter" if rng.random() < 0.25 else "int"
-    if stratum == "ties":
+    if wide:
+        mkind = str(rng.choice(["uniform", "negative", "zero", "identity", "ties01", "ties101", "big", "positive"]))
+    elif stratum == "ties":
         mkind = str(rng.choice(["zero", "ties01", "ties101", "ties22", "identity", "symmetric"]))
     elif stratum == "large":
         mkind = str(rng.choice(["uniform", "identity", "symmetric", "ties101", "big"]))
@@ -249,7 +255,7 @@ def gen_inputs(rng, ctx, stratum):
     A1 = a1 if K1 == k1 else alphabet(K1, kind1, 2)
     A2 = a2 if K2 == k2 else alphabet(K2, kind2, 3)
     mdtype = str(rng.choice(["int64", "int32", "int16"]))
-    return dict(k=(k1, k2), K=(K1, K2), akind=(kind1, kind2), same_alph=same_alph, a=(a1, a2), A=(A1, A2),
+    return dict(k=(k1, k2), K=(K1, K2), akind=(kind1, kind2), same_alph=same_alph, a=(a1, a2), A=(A1, A2), force64=force64,
                 matrix=matrix, mkind=mkind, mdtype=mdtype, c1=c1, c2=c2, gp=gp, terminal=terminal,
                 local=local, max_number=max_number)
 
@@ -272,6 +278,7 @@ def log_inputs(ctx, d):
         "shared_alphabet_object": d["same_alph"], "matrix_kind": d["mkind"], "matrix_dtype": d["mdtype"],
         "matrix": mdesc, "code1": d["c1"], "code2": d["c2"], "gap_penalty": d["gp"],
         "terminal_penalty": d["terminal"], "local": d["local"], "max_number": d["max_number"],
+        "forced_uint64_codes": list(d.get("force64", (False, False))),
     })
 
 
@@ -280,7 +287,7 @@ def mode_of(terminal, local):
 
 
 # ------------------------------------------------------------------ the oracle
-def judge_call(ctx, s1, s2, sm, c1, c2, matrix, gp, terminal, local, max_number, result, full=True):
+def judge_call(ctx, s1, s2, sm, c1, c2, matrix, gp, terminal, local, max_number, result, probe=False):
     """All clauses of the statement for one align_optimal result."""
     n, m = len(c1), len(c2)
     mode = mode_of(terminal, local)
@@ -321,18 +328,21 @@ def judge_call(ctx, s1, s2, sm, c1, c2, matrix, gp, terminal, local, max_number,
             seen.add(key)
         if idx in fn_idx:
             tp = bool(terminal or local)
+            if (n == 0 or m == 0) and (rows or not tp) and not probe and not ctx.allowed("score_fn_empty_sequence"):
+                ctx.note("score_fn_skipped_empty_sequence(quarantined)")
+                continue
+            ctx.op("align.score")
             try:
                 fs = align.score(ali, sm, gap_penalty=gp, terminal_penalty=tp)
-            except IndexError as e:
-                if not tp and (n == 0 or m == 0):
-                    ctx.exc(e)
-                    ctx.note("score_fn_declined_empty_sequence")
-                else:
-                    raise
-            else:
-                ctx.check(int(fs) == int(ali.score), "score_fn_equals_reported",
-                          "alignment %d: align.score gives %s, reported %d" % (idx, fs, int(ali.score)),
-                          trace=rows, mode=mode)
+            except (IndexError, ValueError) as e:
+                ctx.exc(e)
+                ctx.oracle("score_fn_equals_reported")
+                ctx.fail("score_fn_equals_reported",
+                         "alignment %d: align.score raised %s: %s instead of returning the reported score %d"
+                         % (idx, type(e).__name__, e, int(ali.score)), trace=rows, mode=mode)
+            ctx.check(int(fs) == int(ali.score), "score_fn_equals_reported",
+                      "alignment %d: align.score gives %s, reported %d" % (idx, fs, int(ali.score)),
+                      trace=rows, mode=mode)
     if nonempty == 0:
         ctx.oracle("results_distinct")     # vacuous but evaluated
     return opt, nonempty
@@ -354,6 +364,9 @@ def call_optimal(ctx, s1, s2, sm, gp, terminal, local, max_number):
 def build_objects(d):
     s1 = make_sequence(d["a"][0], d["c1"])
     s2 = make_sequence(d["a"][1], d["c2"])
+    for s, f in zip((s1, s2), d.get("force64", (False, False))):
+        if f:
+            s._seq_code = s.code.astype(np.uint64)
     sm = align.SubstitutionMatrix(d["A"][0], d["A"][1], d["matrix"].astype(d["mdtype"]))
     return s1, s2, sm
 
@@ -451,6 +464,21 @@ def _probe_empty_affine(ctx):
                 judge_call(ctx, s1, s2, sm, c1, c2, mat, gp, terminal, False, 5, res)
 
 
+def _probe_score_fn_empty(ctx):
+    """Trigger class: align.score on a returned alignment one of whose sequences is empty."""
+    mat = np.array([[5, -3], [-3, 5]])
+    a = alphabet(2, "int", 0)
+    sm = align.SubstitutionMatrix(a, a, mat)
+    for c1, c2 in (([], [0, 1, 1]), ([1, 0], []), ([], [])):
+        for terminal in (True, False):
+            gp = -4
+            ctx.log({"code1": c1, "code2": c2, "gap_penalty": gp, "terminal_penalty": terminal, "local": False})
+            s1, s2 = make_sequence(a, c1), make_sequence(a, c2)
+            res = call_optimal(ctx, s1, s2, sm, gp, terminal, False, 5)
+            judge_call(ctx, s1, s2, sm, c1, c2, mat, gp, terminal, False, 5, res, probe=True)
+
+
 PROBES = {
     "empty_sequence_affine_global": _probe_empty_affine,
+    "score_fn_empty_sequence": _probe_score_fn_empty,
 }
